@@ -11,6 +11,9 @@ import (
 // Format: number{.number}...{letter}{_suffix{number}}...{~hash}{-r#}
 var versionPattern = regexp.MustCompile(`^(\d+(?:\.\d+)*)([a-z]?)((?:_[a-z]+\d*)*)(\~[a-f0-9]+)?(-r\d+)?$`)
 
+// versionPrefixPattern matches the longest well-formed beginning of an invalid version
+var versionPrefixPattern = regexp.MustCompile(`^(\d+(?:\.\d+)*)([a-z]?)((?:_[a-z]+\d*)*)(\~[a-f0-9]+)?(-r\d+)?`)
+
 // unknownSuffixPrecedence is the precedence value assigned to unknown suffixes
 // Unknown suffixes are ordered after all known suffixes but before each other lexicographically
 const unknownSuffixPrecedence = 1000
@@ -23,6 +26,11 @@ type Version struct {
 	hash     string             // commit hash: ~abc123...
 	build    int                // build component: -r1, -r2, etc.
 	original string             // original version string
+
+	// For an invalid version ("1.0bc"): its longest well-formed beginning and the rest.
+	// They order invalid versions consistently with the well-formed ones.
+	prefix *Version
+	tail   string
 }
 
 // suffix represents a version suffix like _alpha1, _beta, etc.
@@ -68,14 +76,21 @@ func (e *Ecosystem) NewVersion(version string) (*Version, error) {
 
 		// If version has digits but doesn't match standard pattern, create a special "string-only" version
 		// This handles cases like "1.0bc" mentioned in the test data comment "# invalid. do string sort"
-		return &Version{
+		invalid := &Version{
 			numeric:  nil,
 			letter:   "",
 			suffixes: nil,
 			hash:     "",
 			build:    0,
 			original: original,
-		}, nil
+		}
+		if loc := versionPrefixPattern.FindStringIndex(version); loc != nil {
+			if prefix, err := e.NewVersion(version[:loc[1]]); err == nil && prefix.numeric != nil {
+				invalid.prefix = prefix
+				invalid.tail = version[loc[1]:]
+			}
+		}
+		return invalid, nil
 	}
 
 	numericPart := matches[1]
@@ -205,9 +220,31 @@ func (v *Version) String() string {
 
 // Compare compares this version with another Alpine version
 func (v *Version) Compare(other *Version) int {
-	// Handle invalid versions (no numeric components) - use string comparison
+	// Handle invalid versions (no numeric components): order them by their well-formed
+	// beginning first and by the rest as text ("do string sort"), so that the order stays
+	// consistent with the order of the well-formed versions. Versions without a well-formed
+	// beginning sort before all others and among themselves as text.
 	if v.numeric == nil || other.numeric == nil {
-		return strings.Compare(strings.TrimSpace(v.original), strings.TrimSpace(other.original))
+		a, b := v, other
+		if a.numeric == nil {
+			a = a.prefix
+		}
+		if b.numeric == nil {
+			b = b.prefix
+		}
+		if a == nil || b == nil {
+			if a != nil {
+				return 1
+			}
+			if b != nil {
+				return -1
+			}
+			return strings.Compare(strings.TrimSpace(v.original), strings.TrimSpace(other.original))
+		}
+		if cmp := a.Compare(b); cmp != 0 {
+			return cmp
+		}
+		return strings.Compare(v.tail, other.tail)
 	}
 
 	// 1. Compare numeric components (leading zeros are ignored - use actual numeric values)
